@@ -45,6 +45,17 @@ type scope struct {
 }
 
 func newScope(rootProvider *provider, parent *scope, ctx context.Context, cancel context.CancelFunc) (*scope, error) {
+	s := newScopeWithoutInitializers(rootProvider, parent, ctx, cancel)
+	if err := s.runInitializers(); err != nil {
+		return nil, err
+	}
+
+	return s, nil
+}
+
+// newScopeWithoutInitializers allocates a scope; the caller runs the scope initializers (runInitializers).
+// Build uses it for the root scope, whose initializers may depend on singletons that do not exist yet.
+func newScopeWithoutInitializers(rootProvider *provider, parent *scope, ctx context.Context, cancel context.CancelFunc) *scope {
 	if ctx == nil {
 		ctx = context.Background()
 	}
@@ -65,8 +76,14 @@ func newScope(rootProvider *provider, parent *scope, ctx context.Context, cancel
 	ctx = context.WithValue(ctx, scopeContextKey{}, s)
 	s.context = ctx
 
-	// Initialize scoped services with no returns (initialization functions)
-	// These need to be called when the scope is created
+	return s
+}
+
+// runInitializers calls the scoped services with no returns (initialization functions).
+// These need to be called when the scope is created. A scope whose initializer fails is closed.
+func (s *scope) runInitializers() error {
+	rootProvider := s.rootProvider
+
 	rootProvider.voidReturnScopedDescriptorsMu.RLock()
 	initializers := rootProvider.voidReturnScopedDescriptors
 	rootProvider.voidReturnScopedDescriptorsMu.RUnlock()
@@ -76,7 +93,7 @@ func newScope(rootProvider *provider, parent *scope, ctx context.Context, cancel
 			// Dispose what was created so far and cancel the derived context
 			_ = s.Close()
 
-			return nil, &ResolutionError{
+			return &ResolutionError{
 				ServiceType: descriptor.Type,
 				ServiceKey:  descriptor.Key,
 				Cause:       fmt.Errorf("failed to initialize scoped service: %w", err),
@@ -85,7 +102,7 @@ func newScope(rootProvider *provider, parent *scope, ctx context.Context, cancel
 		}
 	}
 
-	return s, nil
+	return nil
 }
 
 // Provider returns the parent provider that created this scope.
